@@ -1,13 +1,16 @@
 """C09 - rolling window and adaptive shedder.  spec/RollingWindow.tla (abstract, bucket-aligned),
 spec/RollingWindowImpl.tla (offset/lastTime/span mechanism, refinement checked by TLC),
-spec/RollingWindowGen.tla -> replay on collection.RollingWindow under the virtual clock;
+spec/RollingWindowLock.tla (extent of rw.lock in Reduce: a reduction split into select/visit/return is atomic only when
+the lock spans the callbacks), spec/RollingWindowGen.tla -> replay on collection.RollingWindow under the virtual clock
+(sequential histories, concurrent adders, reductions held in their callback and overlapped by a clock advance + an Add);
 spec/Shedder.tla + ShedderGen.tla -> replay on load.adaptiveShedder with an injected CPU reading;
 spec/ShedGate.tla -> the HTTP handler / gRPC interceptor report exactly one Pass or Fail per admitted request."""
-import os
+import os, threading
 from vlib import core
 
 W = 6
 SHARDS = 12
+OV_SHARDS = 8      # overlap families: two goroutines per step, keep the machine's share small
 PKG_W = "./lib/collection"
 OV_W = {"lib/collection/zz_verif_c09_test.go": "c09/window_test.go"}
 PKG_S = "./lib/load"
@@ -24,7 +27,12 @@ META = dict(
          "bucket advances up to size+2 buckets, (c) enumerates Add/Reduce histories with sub-bucket, multi-bucket and "
          "multi-window gaps (RollingWindowGen.tla, both ignore-current settings, concurrent adders at a frozen clock, "
          "walk-out over every expiry boundary) that are replayed on the real RollingWindow under the timex virtual "
-         "clock, comparing the multiset of non-empty buckets and the totals; (d) model-checks Shedder.tla (P1 no "
+         "clock, comparing the multiset of non-empty buckets and the totals; (c') overlap steps: a Reduce is held inside "
+         "its callback after 0..3 buckets, the clock moves on by 0..size+1 bucket intervals and another goroutine calls "
+         "Add (waited for only until it returned or is parked on a lock), the callback is let go: the reduction must equal "
+         "the specification's report of ONE moment (before the advance / after it / after the add - Reduce is one atomic "
+         "action of RollingWindow.tla; RollingWindowLock.tla shows that the mechanism has this property iff rw.lock spans "
+         "the callbacks), and the add is visible afterwards (next reduction, walk-out); (d) model-checks Shedder.tla (P1 no "
          "rejection while cool, P2 rejection only above the window capacity, P3 in-flight = admitted - completed) and "
          "replays ShedderGen.tla behaviours (CPU reading injected through systemOverloadChecker, both decisions "
          "generated wherever a rejection is permitted) on the real adaptive shedder, comparing the in-flight count "
@@ -40,7 +48,8 @@ META = dict(
     design="4/C09")
 
 FINISH = dict(rule="behaviours = complete TLC enumeration (BFS over the history variable) of macro-steps [advance; op] up to "
-                   "MaxOps operations (window: every advance class from 0 to size+2 buckets; shedder: scripted families "
+                   "MaxOps operations (window: every advance class from 0 to size+2 buckets; overlap families: every [prefix; "
+                   "gap; held reduction x advance during it x buckets read before the hold; add by another goroutine]; shedder: scripted families "
                    "around bursts, completions, overload and the cool-off second) plus seeded TLC simulation of longer "
                    "behaviours; every reduction / every Allow decision and in-flight count is compared with the "
                    "specification")
@@ -48,7 +57,7 @@ FINISH = dict(rule="behaviours = complete TLC enumeration (BFS over the history 
 
 # ------------------------------------------------------------------------------------ model checking
 
-def mc(ctx):
+def mc(ctx, workers=W):
     combos = [(1, 2, True), (2, 2, False), (3, 2, True)] if ctx.quick else \
              [(s, q, i) for (s, q) in [(1, 4), (2, 4), (3, 2), (3, 4), (4, 2)] for i in (True, False)]
     for size, q, ign in combos:
@@ -56,23 +65,39 @@ def mc(ctx):
         tag = "s%dq%d%s" % (size, q, "i" if ign else "c")
         cfg = core.render_cfg(spec="Spec", constants=K, invariants=["Aligned", "AbsExact", "AbsReduceExact"],
                               properties=["Refines"], constraints=["Bound"], action_constraints=["NoDoubleAdv"])
-        ctx.tlc("RollingWindowImpl", cfg, constants=K, name="RWImpl-" + tag, timeout=1200, workers=W,
+        ctx.tlc("RollingWindowImpl", cfg, constants=K, name="RWImpl-" + tag, timeout=1200, workers=workers,
                 defs=dict(Bound="Len(log) <= 2 /\\ now <= %d" % (2 * ((size + 1) * q + 1)),
                           NoDoubleAdv='~(out.op = "advance" /\\ out\'.op = "advance")'))
     K = dict(Size=3, Q=2, IgnoreCurrent=True, Advances="0..9", Vals="{1,2}")
     cfg = core.render_cfg(spec="Spec", constants=K, invariants=["TypeOK", "Exact", "ReduceExact"], constraints=["Bound"])
-    ctx.tlc("RollingWindow", cfg, constants=K, name="RW-abs", timeout=900, workers=W,
+    ctx.tlc("RollingWindow", cfg, constants=K, name="RW-abs", timeout=900, workers=workers,
             defs=dict(Bound="Len(log) <= %d /\\ now <= 16" % (2 if ctx.quick else 3)))
+    # extent of rw.lock in Reduce: the reduction split into select / visit ... / return, overlapped by advances and adds
+    # of other goroutines.  "locked" (the lock spans the callbacks) must satisfy Atomic, "unlocked" must violate it
+    # (vacuity guard of the model: the overlap dimension can tell the two apart).
+    lock_runs = [(3, 2, True, "locked"), (3, 2, True, "unlocked")] if ctx.quick else \
+                [(s, 2, i, v) for s in (2, 3, 4) for i in (True, False) for v in ("locked", "unlocked")]
+    for size, q, ign, variant in lock_runs:
+        K = dict(Size=size, Q=q, IgnoreCurrent=ign, Advances=("{0,1,2,%d}" if ctx.quick else "{0,1,2,4,%d}") % (2 * size + 1),
+                 Vals="{1,2}", Variant='"%s"' % variant)
+        cfg = core.render_cfg(spec="LSpec", constants=K, invariants=["Atomic"], constraints=["Bound"], view="lview")
+        r = ctx.tlc("RollingWindowLock", cfg, constants=K, name="RWLock-s%d%s-%s" % (size, "i" if ign else "c", variant), timeout=1200,
+                    workers=workers, allow_violation=True,
+                    defs=dict(Bound="now <= %d /\\ \\A p \\in Pos : ring[p].count <= %d" % (4 * size, 1 if ctx.quick else 2)))
+        if variant == "locked" and r.violated:
+            raise core.Infra("RollingWindowLock: the locked reduction violates %s (model problem)\n%s" % (r.violated, r.trace_text[-1500:]))
+        if variant == "unlocked" and r.violated != "Atomic":
+            raise core.Infra("vacuous lock model: a reduction whose callbacks run outside rw.lock is not refuted (violated=%s)" % r.violated)
     # shedder: buckets of 500 ms (W = 2), cool-off = 4 ticks
     K = dict(Size=(2 if ctx.quick else 3), Q=2, TickUs=250000, Advances="{0,1,2,5}", MaxFly=3, CalmK=2)
     bound = "now <= 6 /\\ \\A j \\in Ages : passBk[j] <= 1"
     cfg = core.render_cfg(spec="Spec", constants=K, invariants=["TypeOK", "AgedOut", "HighsShape"],
                           properties=["P1", "P2", "P2b", "P3", "P4", "WindowsFedByPass"], constraints=["Bound"], view="core")
-    ctx.tlc("Shedder", cfg, constants=K, name="Shedder-mc", timeout=1500, workers=W, defs=dict(Bound=bound))
+    ctx.tlc("Shedder", cfg, constants=K, name="Shedder-mc", timeout=1500, workers=workers, defs=dict(Bound=bound))
     # vacuity guard: a rejection must be reachable in that model
     K2 = dict(K, Size=2)
     cfg = core.render_cfg(spec="Spec", constants=K2, invariants=["NeverDrops"], constraints=["Bound"])
-    r = ctx.tlc("Shedder", cfg, constants=K2, name="Shedder-reach", timeout=600, workers=W, allow_violation=True,
+    r = ctx.tlc("Shedder", cfg, constants=K2, name="Shedder-reach", timeout=600, workers=workers, allow_violation=True,
                 defs=dict(Bound="now <= 6 /\\ \\A j \\in Ages : passBk[j] <= 1", NeverDrops='~(out.op = "allow" /\\ out.drop)'))
     if r.violated != "NeverDrops":
         raise core.Infra("vacuous shedder model: no rejection reachable (P1/P2 would hold trivially)")
@@ -89,36 +114,80 @@ def advs(size, q, full):
     return "{" + ",".join(str(x) for x in sorted(s)) + "}"
 
 
-def gen_w(ctx, name, size, q, ign, maxops, adv, burst="{40}", vals="{1,2}", simulate=None, depth=None):
-    K = dict(Size=size, Q=q, IgnoreCurrent=ign, Advances=adv, Vals=vals, MaxOps=maxops, Burst=burst)
+def gen_w(ctx, name, size, q, ign, maxops, adv, burst="{40}", vals="{1,2}", simulate=None, depth=None, ov=None, workers=W):
+    # ov = (OvMax, OvAdvances, OvGates): overlap steps (a held reduction overlapped by a clock advance and an Add of another
+    # goroutine); the overlapping add carries a value of its own (5) so that its bucket is recognisable in every report
+    ovmax, ovadv, ovgates = ov or (0, "{}", "{}")
+    K = dict(Size=size, Q=q, IgnoreCurrent=ign, Advances=adv, Vals=vals, MaxOps=maxops, Burst=burst,
+             OvMax=ovmax, OvAdvances=ovadv, OvGates=ovgates, OvVals="{5}")
     cfg = core.render_cfg(spec="GSpec", constants=K, invariants=["Emit"])
     r = ctx.tlc("RollingWindowGen", cfg, constants=K, name=name, simulate=simulate, depth=depth, timeout=1200,
-                workers=(1 if simulate else W))
+                workers=(1 if simulate else workers))
     return r.printed
 
 
-def window(ctx):
-    binp = ctx.go_build(PKG_W, OV_W, name="c09win")
+def window(ctx, binp):
     plans = []
     for ign in (True, False):
         t = "i" if ign else "c"
         if ctx.quick:
             plans += [("w1" + t, 1, 4, ign, 3, advs(1, 4, False), None, "{1,2}"), ("w3" + t, 3, 4, ign, 3, advs(3, 4, False), None, "{2}"),
                       ("w2" + t, 2, 4, ign, 2, advs(2, 4, True), None, "{1,2}"), ("w4" + t, 4, 4, ign, 2, advs(4, 4, True), None, "{1,2}"),
-                      ("ws40" + t, 40, 4, ign, 30, "{0,1,3,4,5,40,159,160,161,168}", (300, 32), "{1,2}")]
+                      ("ws40" + t, 40, 4, ign, 40, "{0,1,3,4,5,40,159,160,161,168}", (300, 42), "{1,2}", (40, "{8,161}", "{1}"))]
         else:
             plans += [("w1" + t, 1, 4, ign, 4, advs(1, 4, False), None, "{1,2}"), ("w2" + t, 2, 4, ign, 3, advs(2, 4, True), None, "{2}"),
                       ("w3" + t, 3, 4, ign, 3, advs(3, 4, True), None, "{2}"), ("w3d" + t, 3, 4, ign, 4, "{0,1,4,5,11,12,13,20}", None, "{2}"),
                       ("w4" + t, 4, 4, ign, 3, advs(4, 4, False), None, "{1,2}"),
-                      ("ws4" + t, 4, 4, ign, 40, advs(4, 4, True), (3000, 42), "{1,2,3}"),
-                      ("ws40" + t, 40, 4, ign, 40, "{0,1,3,4,5,40,159,160,161,168}", (2000, 42), "{1,2,3}"),
-                      ("ws50" + t, 50, 4, ign, 40, "{0,1,2,4,7,50,199,200,201,240}", (2000, 42), "{1,2,3}")]
-    for name, size, q, ign, maxops, adv, sim, vals in plans:
-        cases = gen_w(ctx, name, size, q, ign, maxops, adv, vals=vals, simulate=(sim[0] if sim else None), depth=(sim[1] if sim else None))
+                      ("ws4" + t, 4, 4, ign, 50, advs(4, 4, True), (3000, 52), "{1,2,3}", (50, "{1,4,9,17}", "{2}")),   # overlap choices kept few: simulation cost grows with the enabled successors
+                      ("ws40" + t, 40, 4, ign, 50, "{0,1,3,4,5,40,159,160,161,168}", (2000, 52), "{1,2,3}", (50, "{8,161}", "{1}")),
+                      ("ws50" + t, 50, 4, ign, 50, "{0,1,2,4,7,50,199,200,201,240}", (2000, 52), "{1,2,3}", (50, "{4,202}", "{3}"))]
+    for name, size, q, ign, maxops, adv, sim, vals, *ov in plans:
+        cases = gen_w(ctx, name, size, q, ign, maxops, adv, vals=vals, simulate=(sim[0] if sim else None), depth=(sim[1] if sim else None),
+                      ov=(ov[0] if ov else None))
         path, cnt = ctx.write_cases(name + ".ndjson", cases)
         ctx.samples += core.sample_of(cases, 1)
         ctx.replay(PKG_W, OV_W, "^TestVerifC09Window$", path, label=name, shards=SHARDS, gomaxprocs=4, binp=binp,
                    env=dict(VERIF_SIZE=size, VERIF_Q=q, VERIF_IGNORE=(1 if ign else 0)))
+
+
+def overlap(ctx, binp, workers=W):
+    """A Reduce whose callback is held, overlapped by a clock advance of 0 .. size+1 bucket intervals and an Add issued by
+    another goroutine (RollingWindowGen!Overlap): the reduction must report the window of ONE moment (before the advance,
+    after it, after the add); the add must be visible afterwards.  Exhaustive over [prefix of adds/reduces with sub-bucket,
+    bucket and beyond-window gaps; gap before the reduction; advance during it; number of buckets read before it is held]."""
+    plans = []
+    for ign in (True, False):
+        t = "i" if ign else "c"
+        if ctx.quick:
+            plans += [("o3" + t, 3, 2, ign, 3, "{0,1,2,7}", "{1,2}", (1, "{0,1,2,3,4,6,8}", "{0,1}"))]
+        else:
+            plans += [("o1" + t, 1, 2, ign, 3, "{0,1,2,3,5}", "{1,2}", (1, "0..5", "{0,1}")),
+                      ("o2" + t, 2, 2, ign, 3, "{0,1,2,3,5}", "{1,2}", (1, "0..7", "{0,1,2}")),
+                      ("o3" + t, 3, 2, ign, 4, "{0,1,2,7}", "{2}", (1, "0..9", "{0,1,2,3}")),
+                      ("o3q" + t, 3, 4, ign, 3, advs(3, 4, False), "{2}", (1, "{0,1,4,5,8,12,13,16}", "{1,2}")),
+                      ("o4" + t, 4, 2, ign, 3, "{0,1,2,3,9}", "{1,2}", (1, "0..11", "{0,1,2,3}"))]
+    for name, size, q, ign, maxops, adv, vals, ov in plans:
+        cases = gen_w(ctx, name, size, q, ign, maxops, adv, burst="{}", vals=vals, ov=ov, workers=workers)
+        path, cnt = ctx.write_cases(name + ".ndjson", cases)
+        ctx.samples += core.sample_of([c for c in cases if '"overlap"' in c][:200], 1)
+        ctx.replay(PKG_W, OV_W, "^TestVerifC09Window$", path, label=name, shards=OV_SHARDS, gomaxprocs=4, binp=binp,
+                   env=dict(VERIF_SIZE=size, VERIF_Q=q, VERIF_IGNORE=(1 if ign else 0)))
+
+
+def overlap_vacuity(ctx):
+    """Evaluated only when no disagreement was found: the overlap families must really have held reductions while the
+    clock moved and another goroutine added, for both ignore-current settings and for every class of advance."""
+    for t in ("i", "c"):
+        tot = {}
+        for k, v in ctx.counters.items():
+            lab, _, cnt = k.partition(".")
+            if lab.startswith("o") and lab.endswith(t) and cnt.startswith("overlaps"):
+                tot[cnt] = tot.get(cnt, 0) + v
+        ctx.notes["overlaps_" + t] = tot
+        missing = [c for c in ("overlaps", "overlaps_gap0", "overlaps_gap<bucket", "overlaps_gap<window", "overlaps_gap>=window") if not tot.get(c)]
+        if missing:
+            raise core.Infra("vacuous overlap families (%s): counters %s are 0" % (t, missing))
+    ctx.notes["overlap_adds_not_blocked"] = sum(v for k, v in ctx.counters.items() if k.endswith(".overlap_add_not_blocked"))
 
 
 # ------------------------------------------------------------------------------------ shedder
@@ -212,17 +281,44 @@ def gates(ctx):
 
 
 def run(ctx):
-    mc(ctx)
+    # Harness problems (model checking, vacuity guards, barrier time-outs) are collected and reported only when the real code
+    # produced no disagreement: they never replace a verdict.  The model-checking runs (they concern the models only) and the
+    # overlap families (own TLC generation and replay files) run beside the other stages with 2-3 TLC workers.
+    deferred = []
+
+    def stage(fn, *a):
+        try:
+            fn(ctx, *a)
+        except core.Infra as e:
+            deferred.append(e)
+        except Exception as e:
+            deferred.append(core.Infra("%s: unexpected %r" % (fn.__name__, e)))
+    binw = ctx.go_build(PKG_W, OV_W, name="c09win")   # one binary for both window stages (built before the side thread starts)
+
+    def side():
+        stage(mc, 2 if ctx.quick else 3)
+        stage(overlap, binw, 2 if ctx.quick else 3)
+    mct = threading.Thread(target=side, daemon=True)
+    mct.start()
     ctx.exhaustive = True
     ctx.assumptions += [
         "time is the timex virtual clock (hook H1); one tick = 10 ms (window) / 0.25 ms (shedder)",
         "CPU reading injected through load.systemOverloadChecker; lib/stat sampling not exercised",
         "shedder capacity is defined by the exact average latency; whole-millisecond statistics may only err upwards; genuine nearest-rounding borderlines excluded from generation (ShedderGen!StatsOK)",
     ]
-    window(ctx)
-    shedder(ctx)
-    if os.path.exists(os.path.join(core.SPEC, "ShedGate.tla")):
-        gates(ctx)
+    try:
+        stage(window, binw)
+        stage(shedder)
+        if os.path.exists(os.path.join(core.SPEC, "ShedGate.tla")):
+            stage(gates)
+    finally:
+        mct.join()
+    if not ctx.disagreements and not deferred:
+        stage(overlap_vacuity)
+    if deferred and not ctx.disagreements:
+        raise deferred[0]
+    if deferred:
+        ctx.notes["harness_problems_beside_disagreements"] = [str(e)[:1000] for e in deferred[:5]]
 
 
 def replay(ctx, rp):
